@@ -343,6 +343,8 @@ pub fn run(run: &mut Run, rng: &mut Rng) {
     }
     run.count("exhaustive_single_placement");
 
+    reader_cases(run, &g, rng);
+
     for _ in 0..n {
         let mut r = rng.fork();
         if r.chance(1, 12) {
@@ -417,6 +419,73 @@ fn one_ops(run: &mut Run, base: ValidationResults, ops: Vec<(char, String, Strin
     }
     if let Some(d) = mono_fail {
         run.fail(idx, "failure-not-monotone", d);
+    }
+}
+
+/// `Reader::validation_state()` on a reader that carries a results object: (a) deserialized
+/// readers whose serialized `validation_state` field contradicts the results (a stale cached
+/// value must not win), (b) real reads of fixtures, compared with the state of their own results.
+fn reader_cases(run: &mut Run, g: &Gen, rng: &mut Rng) {
+    let n = if run.thorough() { 20_000 } else { 2_000 };
+    for _ in 0..n {
+        let mut r = rng.fork();
+        let results = g.results(&mut r);
+        let stale = *r.pick(&["Invalid", "Valid", "Trusted", "-"]);
+        let mut json = serde_json::json!({
+            "manifests": {},
+            "validation_results": serde_json::to_value(&results).expect("ser"),
+        });
+        if stale != "-" {
+            json["validation_state"] = serde_json::Value::String(stale.to_string());
+        }
+        let reader: c2pa::Reader = match serde_json::from_value(json) {
+            Ok(r) => r,
+            Err(_) => continue,
+        };
+        let Some(rr) = reader.validation_results() else { continue };
+        let state = reader.validation_state();
+        let req = format!("C04 reader stale={} {}", stale, results_str(rr));
+        let expect = rr.validation_state();
+        if state != ValidationState::Invalid || expect != ValidationState::Invalid {
+            run.nontrivial(req.clone());
+        }
+        run.count("reader_from_json");
+        let idx = run.case(req, state_str(state).to_string());
+        if let Some(d) = oracle(rr, state) {
+            run.fail(idx, "reader-state-not-from-results", format!("Reader::validation_state (serialized field {stale}): {d}"));
+        }
+    }
+    // real reads
+    let dir = vh::common::fixtures();
+    let mut files: Vec<std::path::PathBuf> = std::fs::read_dir(&dir)
+        .map(|d| d.filter_map(|e| e.ok()).map(|e| e.path()).filter(|p| p.extension().map(|x| x == "jpg").unwrap_or(false)).collect())
+        .unwrap_or_default();
+    files.sort();
+    for f in files.into_iter().take(if run.thorough() { 40 } else { 12 }) {
+        let Ok(data) = std::fs::read(&f) else { continue };
+        if data.len() > 600_000 {
+            continue;
+        }
+        let res = vh::common::guarded(|| c2pa::Reader::from_context(Context::new()).with_stream("image/jpeg", std::io::Cursor::new(data)));
+        if let Ok(Ok(reader)) = res {
+            if let Some(rr) = reader.validation_results() {
+                let state = reader.validation_state();
+                // real ingredient URIs contain the protocol's separators: name them by position
+                let a = rr.active_manifest().map(sc_str).unwrap_or_else(|| "-".to_string());
+                let d = match rr.ingredient_deltas() {
+                    None => "-".to_string(),
+                    Some(v) if v.is_empty() => "[]".to_string(),
+                    Some(v) => v.iter().enumerate().map(|(i, idv)| format!("u{i}~{}", sc_str(idv.validation_deltas()))).collect::<Vec<_>>().join("/"),
+                };
+                let req = format!("C04 reader stale=- A={a} D={d}");
+                run.nontrivial(req.clone());
+                run.count("reader_real_read");
+                let idx = run.case(req, state_str(state).to_string());
+                if let Some(d) = oracle(rr, state) {
+                    run.fail(idx, "reader-state-not-from-results", format!("{}: {d}", f.display()));
+                }
+            }
+        }
     }
 }
 
